@@ -252,6 +252,62 @@ pub fn fault_run(tree: &Tree, check: bool, plan: Option<String>, tmpdir: Option<
     }
 }
 
+/// Does a trace show two source files (read-only opens of `*.rs` below `proj/src`) open at the same time?
+pub fn trace_shows_overlapping_source_files(trace: &[TraceOp]) -> bool
+{
+    let mut open_src: std::collections::BTreeSet<i64> = std::collections::BTreeSet::new();
+    for t in trace
+    {
+        if t.kind == "open" && t.ret >= 0 && (t.flags & 3) == 0 && t.path.contains("/proj/src/") && t.path.ends_with(".rs")
+        {
+            if !open_src.is_empty()
+            {
+                return true;
+            }
+            open_src.insert(t.ret);
+        }
+        else if t.kind == "close"
+        {
+            open_src.remove(&t.fd);
+        }
+    }
+    false
+}
+
+/// One probe per process: does the subject work on one source file at a time? Eight files of about
+/// 400 KB each (dozens of read calls per file) are scanned by a fault-free --check run; a subject
+/// that processes files concurrently has two of them open at the same time there.
+pub fn subject_is_sequential() -> bool
+{
+    static PROBE: std::sync::OnceLock<bool> = std::sync::OnceLock::new();
+    *PROBE.get_or_init(|| {
+        let mut tree = Tree::new();
+        tree.insert(
+            "Breadlog.yaml".to_string(),
+            Node::File(b"---\nsource_dir: ./src\nuse_cache: false\nrust:\n  log_macros:\n    - module: log\n      name: info\n".to_vec()),
+        );
+        tree.insert("src".to_string(), Node::Dir);
+        for i in 0..8
+        {
+            let mut t = String::with_capacity(420_000);
+            t.push_str("fn f() {\n");
+            while t.len() < 400_000
+            {
+                t.push_str("    let _x = compute(1, 2, 3); // filler\n");
+            }
+            t.push_str("    info!(\"[ref: 1] probe\");\n}\n");
+            tree.insert(format!("src/p{}.rs", i), Node::File(t.into_bytes()));
+        }
+        let mut overlapping = false;
+        for _ in 0..2
+        {
+            let r = fault_run(&tree, true, None, None);
+            overlapping |= trace_shows_overlapping_source_files(&r.run.trace);
+        }
+        !overlapping
+    })
+}
+
 pub fn applicable_errnos(kind: &str, flags: i64) -> Vec<&'static str>
 {
     match kind
